@@ -237,10 +237,33 @@ def run(fx, rep):
     rep.floor('R6', 12)
     # ---------------- R7 container equality is structural
     rep.rule('R7', 'equality of maps and keys is the compiler-derived structural equality (entries equal <=> maps equal); Value::eq delegates to it')
-    for ty in ('cel_interpreter::objects::Map', 'cel_interpreter::objects::Key'):
-        eb = [x for x in fx.bodies.values() if x.path == '<%s as std::cmp::PartialEq>::eq' % ty]
-        rep.check(len(eb) == 1 and eb[0].is_derived(), 'R7', 'derived-eq/%s' % ty.rsplit('::', 1)[-1], eb[0].loc() if eb else '-', '#[derive(PartialEq)]',
-                  'PartialEq for %s is hand-written: equality of maps must be "same keys (by Key equality), equal values" and symmetric; a lookup-based comparison (Map::get falls back between int and uint keys) is neither' % ty)
+    kb = [x for x in fx.bodies.values() if x.path == '<cel_interpreter::objects::Key as std::cmp::PartialEq>::eq']
+    rep.check(len(kb) == 1 and kb[0].is_derived(), 'R7', 'derived-eq/Key', kb[0].loc() if kb else '-', '#[derive(PartialEq)]', 'PartialEq for Key is hand-written: keys must be equal exactly when kind and payload are')
+    mb = [x for x in fx.bodies.values() if x.path == '<cel_interpreter::objects::Map as std::cmp::PartialEq>::eq']
+    if len(mb) != 1:
+        raise F.Lost('PartialEq for Map not found')
+    mb = mb[0]
+    mpv = F.Prov(mb)
+    mcalls = [(F.norm_callee(t), F.resolved_callee(t) or '', [sorted(F.term_str(x) for x in mpv.of_operand(a)) for a in t['args']]) for bi, t in mb.calls()]
+    structural = [c for c in mcalls if c[0] == 'std::cmp::PartialEq::eq' and re.search(r'HashMap', c[1] + ' '.join(str(x) for x in c[2])) or c[0] == 'std::cmp::PartialEq::eq']
+    others = [c for c in mcalls if c[0] not in ('std::cmp::PartialEq::eq', 'std::ops::Deref::deref', 'std::convert::AsRef::as_ref')]
+    okm = mb.is_derived() or (len(structural) == 1 and not others and all(set(a) <= {'arg1.map', 'arg2.map', 'deref(arg1.map)', 'deref(arg2.map)', 'as_ref(arg1.map)', 'as_ref(arg2.map)'} for a in structural[0][2])
+                              and structural[0][2][0] != structural[0][2][1])
+    rep.check(okm, 'R7', 'structural-eq/Map', mb.loc(), 'derived, or HashMap == HashMap of the two payloads',
+              'PartialEq for Map is neither derived nor the plain comparison of the two HashMaps (%s): equality of maps must be "same keys (by Key equality), equal values" and symmetric; a lookup-based comparison (Map::get falls back between int and uint keys) is neither' % [c[0] for c in mcalls][:6])
+    # ---------------- R8 no identity shortcut around NaN
+    rep.rule('R8', 'containers that can hold a double are compared element by element, never through Arc\'s PartialEq (which returns true for one and the same allocation when T: Eq, so [NaN] == itself)')
+    n8 = 0
+    for body in (eqb, mb):
+        for bi, t in body.calls():
+            if F.norm_callee(t) != 'std::cmp::PartialEq::eq':
+                continue
+            n8 += 1
+            ty = (t['callee'].get('args') or [t['arg_tys'][0]])[0].lstrip('&')
+            if ty.startswith('std::sync::Arc<') and 'objects::Value' in ty:
+                rep.violation('R8', 'arc-identity-shortcut/%s/%s' % ('Value' if body is eqb else 'Map', 'Vec' if 'Vec<' in ty else ('HashMap' if 'HashMap' in ty else 'other')), F.loc_of(t['span']),
+                              '%s is compared with Arc\'s PartialEq: Value implements Eq, so Arc::eq answers true for the same allocation without looking inside, and a list or map holding NaN equals itself ([[0.0/0.0]].all(x, x == x) is true although [0.0/0.0] == [0.0/0.0] is false)' % ty)
+    rep.check(n8 >= 10, 'R8', 'eq-calls-scanned', eqb.loc(), '%d equality calls scanned' % n8, 'only %d equality calls scanned (anchor lost)' % n8)
     # ---------------- R4
     for fn, keep in (('max', 1), ('min', -1)):
         fb = fx.body('cel_interpreter::functions::' + fn)
